@@ -337,6 +337,11 @@ def apply_np(U, qs, N, psi):
     return T.reshape(psi.shape)
 
 
+def dense_prefixes(N, gates, utab=None):
+    """the ordered products of the first 1, 2, ... gates"""
+    return [dense_product(N, gates[:k + 1], utab) for k in range(len(gates))]
+
+
 def dense_product(N, gates, utab=None):
     """the ordered product of the documented / user matrices embedded on the qubits the harness named"""
     D = np.eye(2 ** N, dtype=complex)
@@ -426,6 +431,21 @@ def random_controlled_gate(rng, N):
     name = rng.choice(CTRL_TARGETS)
     val = float_angle(rng) if name in ROT else None
     return G(name, [qs[nc]], qs[:nc], val=val, cn=False, via="ControlledGate", cv=rng.randrange(2 ** nc))
+
+
+def phase_after_circuits():
+    """GLOBALPHASE steps following a gate (the tensor of the previous step is then often C-contiguous), consecutive
+    phase steps, a phase first: [g, P, P'], [P, g, P'] for every placed exact gate on 2 qubits and the in-order ones on 3"""
+    P = lambda p8: G("GLOBALPHASE", [], [], p8=p8)
+    out = []
+    for N, gs in ((1, placed_gates(1, rot_angles=False)), (2, placed_gates(2, rot_angles=False)),
+                  (3, [g for g in placed_gates(3, rot_angles=False) if g.qubits() == sorted(g.qubits())])):
+        for g in gs:
+            if g.name == "GLOBALPHASE":
+                continue
+            out.append((N, [g, P(3), P(-4)]))
+            out.append((N, [P(5), g, P(16)]))
+    return out
 
 
 def exact_angle(rng):
@@ -584,6 +604,9 @@ class C01(PropertyCheck):
         "QipVerif.C01.propagators_compact_eq",
         "QipVerif.C01.compact_pipeline_eq_den",
         "QipVerif.C01.library_circuit_eq_denG",
+        "QipVerif.C01.trajectory_prefix",
+        "QipVerif.C01.trajectory_eq_den",
+        "QipVerif.C01.trajectory_oper_eq_den",
     ]
     technique = ("Lean 4 proof (list combinatorics of the einsum index lists; contraction = embedded operator via the split "
                  "equivalence; induction over the gate list; invariant of the block list of the compact product; decision logic "
@@ -602,7 +625,10 @@ class C01(PropertyCheck):
                   "library names; refusals), circuits of user gates run to the product of the user's matrices, and circuits of "
                   "library gates given in the circuit IR run to denG (the shared specification object built from the matrices "
                   "generated from the source, whose documented forms are C09) for every real angle. propagators with "
-                  "ignore_measurement drop exactly the measurements, without it a measurement is refused. An unsorted set order "
+                  "ignore_measurement drop exactly the measurements, without it a measurement is refused. Stepping: the state "
+                  "recorded after step k is the product of the first k gates applied to the input whatever steps follow "
+                  "(trajectory_prefix / trajectory_eq_den); on the code every object returned by sim.state is kept and the "
+                  "trajectory is compared after the last step (no-aliasing contract, cf. C16 no_alias). An unsorted set order "
                   "breaks the compact product (counter-example proved in the kernel; repaired in /repo by cbd9b48). The model is "
                   "tied to the code by an exact correspondence (amplitudes in Z[zeta16][1/2]) over every placed library gate on 1-3 "
                   "qubits (angles incl. 2pi and -5pi/2; added by name and as objects of every exported gate class), pairs of placed "
@@ -653,13 +679,15 @@ class C01(PropertyCheck):
         out["einsum_lists"] = ("ok", spy.calls)
 
         def steps(mode, state):
+            # the trajectory is KEPT as the objects sim.state returned and read only after the last step: a returned
+            # state must never change afterwards (no aliasing of the simulator's buffer; cf. C16 no_alias)
             sim = CircuitSimulator(qc, mode=mode)
             sim.initialize(state)
-            res = []
+            kept = []
             for _ in range(len(qc.gates)):
                 sim.step()
-                res.append(sim.state.full().copy())
-            return res
+                kept.append(sim.state)
+            return [k.full().copy() for k in kept]
         if paths is None:
             def pre():
                 import warnings
@@ -1053,6 +1081,12 @@ class C01(PropertyCheck):
         self._exact_batch(ctx, res, [(2, [a, b], [], ["pair", "N=2", "same-name-objects"], None) for a in pobj for b in pobj])
         res.notes.append(f"exhaustive: every ordered pair of placed objects of the classes CX CY CS CT CRX CRY CRZ on 2 qubits "
                          f"({len(pobj) ** 2} pairs; the objects share .name and arg_value), all paths")
+        # GLOBALPHASE after a gate / consecutive phases, stepped with the trajectory kept
+        pa = phase_after_circuits()
+        self._exact_batch(ctx, res, [(N, gs, [], ["phase-after", f"N={N}"], {"ket", "ket_steps", "oper_steps", "dm_steps"})
+                                     for N, gs in pa])
+        res.notes.append(f"exhaustive: [g, phase, phase'] and [phase, g, phase'] for every placed exact gate on 1-2 qubits and the "
+                         f"in-order ones on 3 ({len(pa)} circuits), stepped with every returned state kept and compared at the end")
         ctx.log(f"  singles done at {time.time() - t0:.1f}s")
         # 2. every ordered pair of placed gates on 3 qubits (thorough), sampled (quick)
         light = placed_gates(3, rot_angles=False)
@@ -1142,6 +1176,20 @@ class C01(PropertyCheck):
                 last = sim.state.full()      # read between the steps, as the documentation does
             return last
 
+        def trajectory(mode, state, expected):
+            """every sim.state object is kept and all are compared only after the last step with the product of the
+            first k gates: a state that was handed out must not change when later steps are taken"""
+            sim = CircuitSimulator(qc, mode=mode)
+            sim.initialize(state)
+            kept = []
+            for _ in range(len(qc.gates)):
+                sim.step()
+                kept.append(sim.state)
+            Ds = dense_prefixes(N, gates, utab)
+            got = np.stack([k.full() for k in kept]) if kept else np.zeros((0,))
+            exp = np.stack([expected(Dk) for Dk in Ds]) if kept else np.zeros((0,))
+            return got, exp
+
         def pre():
             import warnings
             with warnings.catch_warnings():
@@ -1196,6 +1244,12 @@ class C01(PropertyCheck):
         ]
         if gates:
             paths += [
+            ("trajectory of kept sim.state objects (ket), compared after the last step",
+             lambda: trajectory("state_vector_simulator", qket, lambda Dk: (Dk @ psi).reshape(-1, 1))),
+            ("trajectory of kept sim.state objects (operator), compared after the last step",
+             lambda: trajectory("state_vector_simulator", qop, lambda Dk: Dk @ A)),
+            ("trajectory of kept sim.state objects (density matrix), compared after the last step",
+             lambda: trajectory("density_matrix_simulator", qrho, lambda Dk: Dk @ rho @ Dk.conj().T)),
                 ("product of propagators(expand=True), left to right",
                  lambda: (gate_sequence_product(qc.propagators(expand=True)).full(), D)),
                 ("gate_sequence_product(propagators(expand=False), expand=True)", compact),
@@ -1277,6 +1331,8 @@ class C01(PropertyCheck):
                       for g in placed_gates(N, objects=True)]
         pobj = partial_class_objects(2)
         systematic += [{"kind": "circuit", "N": 2, "gates": [a.js(), b.js()], "ug": []} for a in pobj for b in pobj]
+        systematic += [{"kind": "circuit", "N": N, "gates": [g.js() for g in gs], "ug": []} for N, gs in phase_after_circuits()
+                       if N <= 2]
         systematic += self._controlled_witnesses()
         systematic += angle_sweep()
         systematic += [{"kind": "circuit", "N": 3, "gates": [g.js()], "ug": []} for g in placed_gates(3, objects=True)]
@@ -1297,6 +1353,11 @@ class C01(PropertyCheck):
               {"kind": "compact", "N": 9, "gates": [G("X", [4], []).js()] + [G("IDLE", [q], []).js() for q in range(9) if q != 4]
                + [G("CNOT", [4], [8]).js()]}]
         ws.append({"kind": "circuit", "N": 2, "gates": [G("X", [1], []).js(), G("SNOT", [1], []).js()], "ug": []})
+        # a phase step after a gate, consecutive phase steps: the kept trajectory must not change
+        Pg = lambda p8: G("GLOBALPHASE", [], [], p8=p8).js()
+        ws.append({"kind": "circuit", "N": 1, "ug": [], "gates": [G("X", [0], []).js(), Pg(4), Pg(3)]})
+        ws.append({"kind": "circuit", "N": 2, "ug": [], "gates": [G("RX", [0], [], p8=2).js(), Pg(4), G("CNOT", [1], [0]).js(), Pg(-6),
+                                                                   Pg(1), G("SNOT", [1], []).js()]})
         # objects of different classes with equal .name and arg_value in one circuit
         ws.append({"kind": "circuit", "N": 2, "ug": [], "gates": [G("CY", [1], [0], via="CY").js(), G("CS", [0], [1], via="CS").js(),
                                                                    G("CNOT", [1], [0], via="CX").js()]})
